@@ -32,7 +32,7 @@ func genC08(t *rapid.T, protos []vt.NamedProto) c08Case {
 	c.In = rapid.IntRange(0, 4).Draw(t, "in")
 	c.Out = rapid.IntRange(0, 4).Draw(t, "out")
 	c.Late = rapid.IntRange(0, 2).Draw(t, "late")
-	c.Release = rapid.Permutation(seq(c.In + c.Out)).Draw(t, "release")
+	c.Release = rapid.Permutation(seq(c.In+c.Out)).Draw(t, "release")
 	c.Cut = rapid.IntRange(0, 4).Draw(t, "cut") == 0
 	if c.In+c.Out > 0 {
 		c.CutAfter = rapid.IntRange(0, c.In+c.Out-1).Draw(t, "cutafter")
